@@ -25,6 +25,8 @@ def random_case(prop, rng, tier):
     if rng.random() < 0.6:
         after = [rng.choice(['src', 'copy']), rng.randrange(1 << 30)]
     case = {'graph': g, 'w': w, 'mode': mode, 'roots': roots, 'attrs': rng.random() < 0.5, 'after': after}
+    if rng.random() < 0.2:
+        case['badSet'] = rng.randrange(1, 3)
     if mode == 'subtree':
         # the selection is "Iterable[Task] or a Task": lists, tuples, one-shot iterables, a task list of the WBS, a single task
         case['selKind'] = rng.choice(['list', 'list', 'tuple', 'gen', 'iter', 'filter', 'tasklist'] + (['single'] if roots and len(roots) == 1 else []))
@@ -60,6 +62,15 @@ def execute(prop, case):
             if i % 2 == 0:
                 t.color = f'c{i}'
             t.estimate = i
+    if case.get('badSet'):
+        # assignments the library refuses (a negative estimate / spent): refused means nothing is stored
+        for i, t in enumerate(u.tasks):
+            if i % 2 == case['badSet'] % 2:
+                for name in ('spent', 'estimate'):
+                    try:
+                        setattr(t, name, -2 - i)
+                    except RuntimeError:
+                        pass
     pre = u.snap()
     roots = case['roots']
     kind = case.get('selKind', 'list')
@@ -171,6 +182,8 @@ def judge(prop, case, rec, out):
         info['mismatch'] = {'model_out': m['out'], 'impl_out': rec['out'], 'first_diff': diff}
     mon = dict(out['mon'])
     mon.update({k: bool(v) for k, v in rec['py'].items()})
+    # a copy the model makes must be made: clone / subtree of a reachable state with member roots never raises
+    mon['copyReturns'] = not (m['out'] == 'ok' and rec['out'] != 'ok')
     # statement domain: subtree(roots) is claimed for roots that are ordinary members of the WBS (CloneArgs.member); a shrunk case may
     # have lost the calls that attached them
     if case['roots'] is not None and any(rec['pre']['t'][r][5] != rec['w'] for r in case['roots'] if r < len(rec['pre']['t'])):
